@@ -285,4 +285,20 @@ PROPS = {
             "whether a printed text reads back as the same model value is C09's business: the battery requires the two reading paths to agree always, and to return the original only when the text is faithful to the model",
         ],
     ),
+    "C06": dict(
+        coq_targets=["Props/C06.vo"],
+        harness=[dict(pkg="h_agent", bin="c06", cases={"quick": 600, "thorough": 8000},
+                      checkers=["corr", "oracle"], timeout=3000)],
+        allowed_axioms=[],
+        trusted_base=[
+            "the handler combinators are modelled as the state machines of their Rust step functions (FollowedBy First/Second, AndThen First/Second, one-shot lane actions that fail when stepped again); every lane modification here carries DIRTY | TRIGGER_HANDLER; value and map stores carry `previous` exactly as Inner / MapStoreInner do",
+            "the order in which the task loop picks top-level handlers (lane commands, completed suspended futures) is NOT modelled: the harness reconstructs it from the recorded trace (first event of each command / begin marker of each suspended handler) and gives it to the model; a trace that no order of whole top-level handlers explains fails the comparison",
+            "the real agent is a derived AgentLaneModel with `#[lifecycle]` handlers run by AgentModel over byte-channel lanes on a single-threaded tokio runtime; lanes are transient (no store)",
+        ],
+        assumptions=[
+            "programs are acyclic by rank (a lifecycle handler of an item only modifies items of lower rank; suspended handlers stay below the rank of their spawner): termination of cyclic programs is not claimed (the documentation says such programs exhaust the stack)",
+            "a failing handler of a lane command is abandoned and the agent carries on (the code logs `Incoming frame was rejected by the item`), whereas docs/event_handler.md says the agent fails: the model follows the code; the property's own failure clause (nothing further of the handler or of those it interrupted runs) holds either way",
+            "commands are sent one at a time (each followed by a sync), so interleaving with the runtime is limited to suspended futures against commands; value lanes, map lanes, effects, get / set / and_then / followed_by / suspend are covered, other lane kinds and downlink lifecycles are not (partial)",
+        ],
+    ),
 }
